@@ -232,7 +232,7 @@ CHECKS["C10"] = {
           "refinement to an abstract history under the explicit guard G10 (no partial apply of a rename, undo/redo in place); "
           "the six repaired defects as theorems about the code before each repair next to what the same sequence does now. "
           "The model is compared step by step (exit class, history shape, whole tree) with the real CLI on exhaustively "
-          "enumerated command sequences, same-second undo/redo bursts by `latest` and by id, and random sequences, all run under "
+          "enumerated command sequences, same-second undo/redo bursts by `latest` and by id, and random sequences, on flat workspaces and on a workspace whose operation renames a directory holding an edited file, all run under "
           "an LD_PRELOAD fake clock, and an independent runner-side abstract history judges every step.",
   "design_ref": "DESIGN.md section 4, C10",
   "technique": "Lean 4 proof (induction over command lists, invariant-based refinement) + CLI sequence correspondence under a fake clock + abstract-history oracle",
@@ -241,7 +241,7 @@ CHECKS["C10"] = {
           "unparsable history.json (C11) and the lock (C12) not modelled; the shape of the code (early id check, redo-once, undo/redo "
           "pre-validation, plan stored before the history entry, what the revert id is built on) is read from apply.rs/undo.rs by "
           "translate/history_flags.py into Gen/HistoryFlags.lean, the executable model follows it and `current_shape` pins it; "
-          "workspaces git-ignore .renamify (C09's finding kept out).",
+          "workspaces git-ignore .renamify (C09's finding kept out); the driver has two tree sides (flat files; top-level directory renames - round-trip law of the second not proved, compared with the CLI only).",
 }
 CHECKS["C04"] = {
   "text": "Operation-level Lean model of rename/apply/redo/replace/undo (RModel/Model/Exec.lean): every mutating libc call goes through "
